@@ -77,6 +77,11 @@ def run_check(prop, tier, seed, replay=None, update_baseline=False):
         for k in set(REG.task_keys()) - before:
             owner[k] = m
     tasks = [k for k in REG.task_keys() if prop in REG.task(k).prop]
+    skipped = []
+    if tier == 'quick':
+        from contracts import QUICK_SKIP
+        skipped = [k for k in tasks if REG.task(k).name in QUICK_SKIP]
+        tasks = [k for k in tasks if k not in skipped]
     if not tasks:
         print('property %s: zero verification tasks -- vacuous, refusing to report success' % prop)
         return 3
@@ -164,8 +169,12 @@ def run_check(prop, tier, seed, replay=None, update_baseline=False):
         if r['kind'] == 'vacuity':
             crashes.append((r['obligation'], ('vacuity', 'vacuity guard failed: %s' % r['obligation'], '')))
             continue
-        if fail is not None and match_known(known, prop, fail) is not None:
-            excused.append((r, match_known(known, prop, fail)))
+        k_ob = known_for_obligation(known, prop, r['obligation'])
+        if k_ob is not None:
+            # listed obligation of a known finding: excused (and announced), nothing else of that function is
+            excused.append((r, k_ob))
+            if not any(k_ob is kk for kk, _ in known_hit):
+                known_hit.append((k_ob, fail or {}))
             continue
         if r['verdict'] == 'refuted' or r['contract'] in base_prop:
             why = 'obligation refuted by the solver' if r['verdict'] == 'refuted' else \
@@ -213,6 +222,7 @@ def run_check(prop, tier, seed, replay=None, update_baseline=False):
             'obligations_excused_by_known_findings': [{'obligation': r['obligation'], 'finding': k['id'], 'verdict': r['verdict']}
                                                       for (r, k) in excused],
             'not_built': REG.not_built_for(prop),
+            'tasks_run_in_thorough_tier_only': [REG.task(k).name for k in skipped],
             'slowest_obligations': [{'obligation': r['obligation'], 's': r['s'], 'backend': r['backend'],
                                      'rlimit_used': r.get('rlimit_used'), 'rlimit_cap': r.get('rlimit_cap')}
                                     for r in sorted(all_results, key=lambda r: -(r.get('rlimit_used') or 0))[:8]],
@@ -233,7 +243,7 @@ def run_check(prop, tier, seed, replay=None, update_baseline=False):
           'solver %.1fs; wall %.1fs; exit %d'
           % (prop, tier, n_ob, n_dis, len(refuted), len(undecided), len(functions), solver_s,
              time.time() - t_start, exit_code))
-    slow = sorted(((out[k][1].get('wall_s', 0), k) for k in tasks), reverse=True)[:3]
+    slow = sorted(((out[k][1].get('wall_s', 0), k) for k in tasks), reverse=True)[:12]
     print('  slowest tasks: ' + '; '.join('%s %.0fs' % (k.split(':')[-1][-60:], w) for w, k in slow))
     for k, e in unsupported:
         print('  UNDECIDED (unsupported construct) %s: %s' % (k, e[1]))
@@ -252,6 +262,18 @@ def run_check(prop, tier, seed, replay=None, update_baseline=False):
             json.dump(baseline, f, indent=0, sort_keys=True)
         print('baseline updated: %d fully discharged tasks (%d obligations) for %s' % (len(names), len(proved), prop))
     return exit_code
+
+
+def known_for_obligation(known, prop, obligation):
+    import re
+    name = re.sub(r'\(raise line \d+\)|@L\d+', '', obligation)
+    for k in known:
+        if k.get('status') != 'known' or k['property'] != prop:
+            continue
+        for pre in k.get('obligations', []):
+            if name.startswith(pre):
+                return k
+    return None
 
 
 def match_known(known, prop, fail):
